@@ -11,9 +11,9 @@ E["C11"] = dict(
  text="Coq theorems (Props/C11.v) prove, for every element type and every number and size of blocks: placement of each block element at its prefix-sum offset, result shape, coverage (nothing else in the result), definedness iff the tiling is valid, and soundness of the judge applied to the implementation's output. Tie: every generated tiling (all tilings up to 4x4, larger random ones, perturbed and mixed-kind ones, all 16 kinds) is evaluated by the real interpreter and judged by the extracted Coq judge.",
  note=TRUST + "Error kinds are not compared.", design="DESIGN.md §5 C11")
 E["C07"] = dict(
- text="Coq theorems (Props/C07.v): for payloads of ANY length, every burst of 1..32 bits anywhere in payload||CRC (incl. straddling the trailer) makes CRC-32 verification fail (C07_crc_burst_detected, by xor-linearity of the shift register and bit 31 of the polynomial; no bound on sizes), emitted files verify, header/instruction-stream codecs round-trip, and the model loader never requests a buffer larger than the file. Tie: emitted files of a program family are decoded by the real loader and by the model (header, constant table, instructions compared; re-encode equality), every/sampled truncation, single-bit flips and random bursts must be rejected, random and structurally mutated files with recomputed CRC must not panic/abort/hang, and crc32fast is compared with the Coq CRC on random strings.",
- note=TRUST + "Truncation is decided per file by enumeration (a 2^-32 CRC coincidence cannot be excluded by proof). Symbol/dictionary sections (HashMaps) and constant payload decoding are not modelled: covered by implementation-level re-encode equality only. Known finding const-decoder-panic (constant payload decoders panic on malformed payloads) is listed in known-findings.json. Absence of panics for all byte strings is searched, not proved.",
- design="DESIGN.md §5 C07")
+ text="Machine-checked (Coq, Props/C07.v, no axioms), for payloads and programs of ANY size: every burst of 1..32 bits anywhere in payload||CRC (incl. straddling the trailer) and every non-zero corruption confined to 4 consecutive bytes makes CRC-32 verification fail (xor-linearity of the shift register + bit 31 of the polynomial; no polynomial algebra), emitted files verify; the WHOLE container codec — header, features, types, constant table, blob, symbols, instruction stream, dictionary, trailer — round-trips (load_program (encode_program p) = Ok p for every well-formed program; re-encoding a decoded encoder-produced file reproduces it; to_bytes and compile agree); the loader's allocation ledger is bounded by the file length on all inputs; the constant payload decoders invert the encoders for all well-formed scalars (u8..i128, f32/f64, bool, index, string, r64, c64) and dense matrices of any shape. Tie: for every emitted file of a program family all decoded sections and all decoded constant values of the real loader equal the model's decoding of the same bytes and the model re-encodes to the file; every/sampled truncation, single-bit flips and random bursts must be rejected; random, header-field, instruction-field and section-level mutations with recomputed CRC must not panic/abort/hang (1 GB address-space limit) and the model's accept/reject is compared; crc32fast is compared with the Coq CRC on random strings.",
+ note=TRUST + "Truncation is decided per file by enumeration (a 2^-32 CRC coincidence cannot be excluded by proof). Set and table constant payloads are opaque to the model; 'canonical' in the re-encode theorem means 'produced by the encoder'; symbols and dictionary are ordered lists in the model but HashMaps in the code (compared sorted; byte-exact re-encoding with >= 2 symbols is order dependent — advisory, unreachable because the compiler defines no symbols). Accept/reject agreement on mutated files is advisory by rule. Files whose matrix payload has rows = 0 and a huge column count are excluded from generation (multi-second spin before the panic). Open findings: const-decoder-panic, emitted-constant-undecodable. Absence of panics for all byte strings is searched, not proved.",
+ design="DESIGN.md §5 C07 and §0")
 E["C15"] = dict(
  text="Coq theorems (Props/C15.v, 28 obligations, no axioms) define the value of the four range forms over unbounded integers and prove for all inputs: the closed form equals the recursive 'add s while before b' reading, soundness, completeness, exact position and length, maximality, kind-range preservation, emptiness for zero step or wrong direction; rational and exactly representable float operands are reduced to the integer grid by a proved scaling lemma. The extracted judge, proved sound, checks each observation of the real interpreter; for integer kinds a faithful model of the kernels is proved to meet the spec outside six narrow known-finding classes (C15_holds), each refuted by a witness (C15_refuted_*).",
  note=TRUST + "Binding: all 10 integer kinds, r64, and f32/f64 grids whose terms are exactly representable; c64, inexact float grids, ranges over 200,000 elements and single-element ranges used as an index are advisory. IEEE rounding used for known-finding prediction is an executable definition validated by agreement, not by proof. Six open findings are listed in known-findings.json.",
